@@ -1,9 +1,42 @@
-import Driver.Proto
+import Driver.MeshOpsDrv
+import PolyVerif.Model.Primitives
 
 namespace Driver.C02
+open Driver.MeshIO PolyVerif.Mesh PolyVerif.Prim
+
+def genOut (verts : Nat) (tris : List Nat) : String :=
+  " ".intercalate ([toString verts, toString tris.length] ++ tris.map toString)
+
+def showResults (op : String) : Option (List MV) → String
+  | none => "rejected"
+  | some ms =>
+    if op == "split" then " ".intercalate (toString ms.length :: ms.map showShape)
+    else " ".intercalate (ms.map showShape)
+
+def b? (s : String) : Option Bool := if s == "1" then some true else if s == "0" then some false else none
 
 /-- one request -> one answer line; `none` = unknown op / malformed -/
-def handle (_op : String) (_args : List String) : Option String := none
+def handle (op : String) (args : List String) : Option String :=
+  if op == "c02.holds.wf" then
+    -- the decidable predicate of the C02 theorems, evaluated on the implementation's output.
+    -- A mesh that does not parse (e.g. a negative index) is not well-formed.
+    match pMesh args with
+    | some (m, []) => some (boolStr (decide (MeshVal.WF m)))
+    | _ => some "false"
+  else if op.startsWith "c02.op." then
+    let name := (op.drop 7).toString
+    (applyOp name args).map (showResults name)
+  else match op, args.mapM String.toNat? with
+    | "c02.gen.uvsphere", some [r, c] => if r < 2 ∨ c < 3 then some "rejected" else some (genOut (uvVerts r c) (uvSphereTris r c))
+    | "c02.gen.uvsphere_unwelded", some [r, c] => if r < 2 ∨ c < 3 then some "rejected" else some (genOut (uvUnweldedVerts r c) (uvUnweldedTris r c))
+    | "c02.gen.hemisphere", some [r, c] => if r < 2 ∨ c < 3 then some "rejected" else some (genOut (uvVerts r c) (hemisphereTris r c))
+    | "c02.gen.circle", some [s] => some (genOut (circleVerts s) (circleTris s))
+    | "c02.gen.cylinder", some [s, t, b] => some (genOut (cylinderVerts s (t != 0) (b != 0)) (cylinderTris s (t != 0) (b != 0)))
+    | "c02.gen.cone", some [s] => if s < 3 then some "rejected" else some (genOut (coneVerts s) (coneTris s))
+    | "c02.gen.quad", some [] => some (genOut quadVerts quadTris)
+    | "c02.gen.cube", some [] => some (genOut cubeVerts cubeTris)
+    | "c02.gen.cube_unwelded", some [] => some (genOut cubeUnweldedVerts cubeUnweldedTris)
+    | _, _ => none
 
 end Driver.C02
 
